@@ -75,7 +75,9 @@ def check_c13(tier, seed):
         subprocess.run(["python3", os.path.join(vlib.VERIF, "lib", "genwinref.py")], check=True)
         drive = vlib.build_driver(sc, tags=WIN_TAGS)
         q = tier == "quick"
-        l1, l2 = (4, 2) if q else (5, 3)
+        # (pairs of arbitrary strings stay at length 2: TLC builds the set of initial states on one thread, and a
+        # million records take it the better part of an hour; longer operands come from the structured generators)
+        l1, l2 = (4, 2) if q else (5, 2)
         tables = sc.path("lex.ndjson")
         r = vlib.run_tlc(sc, "MClex", "MClex.cfg", env={"VERIF_LEN1": l1, "VERIF_LEN2": l2, "VERIF_EDGES": tables}, timeout=3000, heap="12g")
         if not r["ok"]:
